@@ -338,6 +338,465 @@ def _split_unpack_guard(assign: ast.Assign, call: ast.Call) -> bool:
 
 
 # ---------------------------------------------------------------------------
+# tuple-unpack of a sequence whose length is decided by (document-controlled) text
+#
+# ``a, b, c = <expr>`` raises ValueError unless ``len(<expr>)`` is exactly 3 (at least 2 for
+# ``a, b, *c``).  When <expr> is built from ``str.split``/``rsplit``/``splitlines`` results (directly,
+# through locals, ``list()``/``tuple()``/``sorted()``, slices, ``+`` concatenation, ``[x] * n`` padding,
+# comprehensions) the length is a function of the number of separators in the text.  The model below
+# evaluates that function concretely for every split length up to a bound above all constants that
+# occur in it (the function is piecewise linear in the split length, so the bound is exhaustive),
+# restricted by ``maxsplit``, by a separator-presence test and by the ``len()`` facts that dominate
+# the unpacking statement.
+
+
+class _Opaque(Exception):
+    """Not a sequence / number this model describes: the construct is not judged."""
+
+
+class _UnpackUnsupported(Exception):
+    """A split-derived sequence flows through an operator whose effect on the length is not modelled."""
+
+
+_SPLITS = ("split", "rsplit", "splitlines")
+_PARTITIONS = ("partition", "rpartition")
+_SAME_LENGTH = ("list", "tuple", "sorted", "reversed", "enumerate")
+_LIST_MUTATORS = ("append", "extend", "insert", "pop", "remove", "clear")
+
+
+class _SeqLen:
+    def __init__(self, fi: FunctionInfo, at: ast.stmt, extra_facts: list[tuple[ast.expr, bool]] = ()):  # type: ignore[assignment]
+        self.fi = fi
+        self.at = at
+        self.bases: dict[int, tuple[ast.Call, int, int | None]] = {}  # id(call) -> (call, lo, hi or None)
+        self.env: dict[int, int] = {}
+        self.consts: set[int] = set()
+        self._defs: dict[str, list] | None = None
+        self._depth = 0
+        self.cfg = None
+        if not fi.is_lambda:
+            try:
+                from .flow import get_cfg
+
+                self.cfg = get_cfg(fi)
+            except Exception:
+                self.cfg = None
+        self.extra_facts = list(extra_facts)
+
+    # -- bindings of locals ---------------------------------------------------------
+    def _bindings(self) -> dict[str, list]:
+        if self._defs is None:
+            d: dict[str, list] = {}
+            fn = self.fi.node
+            if not isinstance(fn, ast.Lambda):
+                a = fn.args
+                for p in a.posonlyargs + a.args + a.kwonlyargs + ([a.vararg] if a.vararg else []) + ([a.kwarg] if a.kwarg else []):
+                    d.setdefault(p.arg, []).append(None)
+            for n in self.fi.local_nodes():
+                if isinstance(n, ast.Assign):
+                    for t in n.targets:
+                        if isinstance(t, ast.Name):
+                            d.setdefault(t.id, []).append(n.value)
+                        else:
+                            for x in ast.walk(t):
+                                if isinstance(x, ast.Name) and isinstance(x.ctx, ast.Store):
+                                    d.setdefault(x.id, []).append(None)
+                elif isinstance(n, ast.AnnAssign) and isinstance(n.target, ast.Name):
+                    if n.value is not None:
+                        d.setdefault(n.target.id, []).append(n.value)
+                elif isinstance(n, (ast.AugAssign, ast.NamedExpr)) and isinstance(n.target, ast.Name):
+                    d.setdefault(n.target.id, []).append(None)
+                elif isinstance(n, (ast.For, ast.comprehension)):
+                    for x in ast.walk(n.target):
+                        if isinstance(x, ast.Name):
+                            d.setdefault(x.id, []).append(None)
+                elif isinstance(n, ast.withitem) and n.optional_vars is not None:
+                    for x in ast.walk(n.optional_vars):
+                        if isinstance(x, ast.Name):
+                            d.setdefault(x.id, []).append(None)
+                elif isinstance(n, ast.ExceptHandler) and n.name:
+                    d.setdefault(n.name, []).append(None)
+            self._defs = d
+        return self._defs
+
+    def _defn(self, name: ast.Name) -> ast.expr:
+        bs = self._bindings().get(name.id, [])
+        if len(bs) != 1 or bs[0] is None:
+            raise _Opaque(name.id)
+        return bs[0]
+
+    def _mutated(self, name: str) -> bool:
+        for n in self.fi.local_nodes():
+            if isinstance(n, ast.Call) and isinstance(n.func, ast.Attribute) and n.func.attr in _LIST_MUTATORS and isinstance(n.func.value, ast.Name) and n.func.value.id == name:
+                return True
+            if isinstance(n, ast.Subscript) and isinstance(n.ctx, (ast.Store, ast.Del)) and isinstance(n.value, ast.Name) and n.value.id == name:
+                return True
+        return False
+
+    # -- bases -----------------------------------------------------------------------
+    def _base(self, call: ast.Call) -> int:
+        key = id(call)
+        if key not in self.bases:
+            attr = call.func.attr  # type: ignore[union-attr]
+            if attr in _PARTITIONS:
+                lo, hi = 3, 3
+            elif attr == "splitlines":
+                lo, hi = 0, None
+            else:
+                recv = call.func.value  # type: ignore[union-attr]
+                if self.fi.module.resolve(dotted(recv) or "") == "re" or isinstance(recv, ast.Call) and (dotted(recv.func) or "").endswith("compile"):
+                    raise _UnpackUnsupported("re.split: the number of fields also depends on the capture groups")
+                sep = call.args[0] if call.args else None
+                for k in call.keywords:
+                    if k.arg == "sep":
+                        sep = k.value
+                whitespace = sep is None or (isinstance(sep, ast.Constant) and sep.value is None)
+                lo = 0 if whitespace else 1
+                ms = call.args[1] if len(call.args) > 1 else None
+                for k in call.keywords:
+                    if k.arg == "maxsplit":
+                        ms = k.value
+                hi = None
+                if ms is not None:
+                    if isinstance(ms, ast.Constant) and isinstance(ms.value, int) and not isinstance(ms.value, bool):
+                        hi = None if ms.value < 0 else ms.value + 1
+                    # a computed maxsplit leaves the upper bound open
+                if not whitespace and _sep_present(call, sep, self):
+                    lo = 2
+                if hi is not None and hi < lo:
+                    lo = hi
+            self.bases[key] = (call, lo, hi)
+        return self.env.get(key, self.bases[key][1])
+
+    # -- evaluation -------------------------------------------------------------------
+    def _guard_depth(self):
+        self._depth += 1
+        if self._depth > 40:
+            raise _Opaque("too deep")
+
+    def seq(self, e: ast.expr) -> set[int]:
+        self._guard_depth()
+        try:
+            return self._seq(e)
+        finally:
+            self._depth -= 1
+
+    def _seq(self, e: ast.expr) -> set[int]:
+        if isinstance(e, ast.Call):
+            f = e.func
+            if isinstance(f, ast.Attribute) and f.attr in _SPLITS + _PARTITIONS and not any(isinstance(a, ast.Starred) for a in e.args):
+                return {self._base(e)}
+            d = dotted(f)
+            if d in _SAME_LENGTH and len(e.args) == 1 and not isinstance(e.args[0], ast.Starred):
+                return self.seq(e.args[0])
+            if d == "map" and len(e.args) == 2:
+                return self.seq(e.args[1])
+            if d == "filter" and len(e.args) == 2:
+                return {k for n in self.seq(e.args[1]) for k in range(n + 1)}
+            raise _Opaque(short(e, 40))
+        if isinstance(e, ast.Name):
+            out = self.seq(self._defn(e))
+            if self._mutated(e.id):
+                raise _UnpackUnsupported(f"`{e.id}` is modified in place between the split and the unpacking")
+            return out
+        if isinstance(e, (ast.List, ast.Tuple)):
+            tot = {0}
+            for x in e.elts:
+                if isinstance(x, ast.Starred):
+                    inner = self._operand(x.value)
+                    tot = {a + b for a in tot for b in inner}
+                else:
+                    tot = {a + 1 for a in tot}
+            return tot
+        if isinstance(e, ast.BinOp) and isinstance(e.op, ast.Add):
+            sides, opaque = [], 0
+            for x in (e.left, e.right):
+                try:
+                    sides.append(self.seq(x))
+                except _Opaque:
+                    opaque += 1
+            if opaque == 2:
+                raise _Opaque(short(e, 40))
+            if opaque:
+                raise _UnpackUnsupported(f"one operand of `{short(e, 50)}` has a length that is not modelled")
+            return {a + b for a in sides[0] for b in sides[1]}
+        if isinstance(e, ast.BinOp) and isinstance(e.op, ast.Mult):
+            for s_, n_ in ((e.left, e.right), (e.right, e.left)):
+                try:
+                    ls = self.seq(s_)
+                except _Opaque:
+                    continue
+                try:
+                    ns = self.num(n_)
+                except _Opaque:
+                    raise _UnpackUnsupported(f"repetition count `{short(n_, 30)}` is not a function of the split length")
+                return {a * max(0, b) for a in ls for b in ns}
+            raise _Opaque(short(e, 40))
+        if isinstance(e, ast.Subscript):
+            if not isinstance(e.slice, ast.Slice):
+                raise _Opaque("element")
+            ls = self.seq(e.value)
+            sl = e.slice
+            try:
+                los = self.num(sl.lower) if sl.lower is not None else {None}
+                ups = self.num(sl.upper) if sl.upper is not None else {None}
+                sts = self.num(sl.step) if sl.step is not None else {None}
+            except _Opaque:
+                return {k for n in ls for k in range(n + 1)}
+            out = set()
+            for n in ls:
+                for a in los:
+                    for b in ups:
+                        for c in sts:
+                            if c == 0:
+                                continue
+                            out.add(len(range(*slice(a, b, c).indices(n))))
+            return out
+        if isinstance(e, (ast.ListComp, ast.GeneratorExp)):
+            if len(e.generators) != 1:
+                raise _Opaque("nested comprehension")
+            g = e.generators[0]
+            ls = self.seq(g.iter)
+            if g.ifs:
+                return {k for n in ls for k in range(n + 1)}
+            return ls
+        if isinstance(e, ast.IfExp):
+            out = set()
+            for t in self.truth(e.test, default={True, False}):
+                out |= self.seq(e.body if t else e.orelse)
+            return out
+        if isinstance(e, ast.BoolOp) and isinstance(e.op, ast.Or) and len(e.values) == 2:
+            out = set()
+            for a in self.seq(e.values[0]):
+                if a == 0:
+                    out |= self._operand(e.values[1])
+                else:
+                    out.add(a)
+            return out
+        raise _Opaque(short(e, 40))
+
+    def _operand(self, e: ast.expr) -> set[int]:
+        """Operand of a length-combining operator: an unmodelled operand next to a modelled one is outside
+        the subset (the caller turns this into "not judged" when no split result is involved at all)."""
+        try:
+            return self.seq(e)
+        except _Opaque as exc:
+            raise _UnpackUnsupported(f"length of `{short(e, 40)}` is not modelled") from exc
+
+    def num(self, e: ast.expr) -> set[int]:
+        self._guard_depth()
+        try:
+            return self._num(e)
+        finally:
+            self._depth -= 1
+
+    def _num(self, e: ast.expr) -> set[int]:
+        if isinstance(e, ast.Constant) and isinstance(e.value, int) and not isinstance(e.value, bool):
+            self.consts.add(abs(e.value))
+            return {e.value}
+        if isinstance(e, ast.Call):
+            d = dotted(e.func)
+            if d == "len" and len(e.args) == 1:
+                return self.seq(e.args[0])
+            if d in ("min", "max") and len(e.args) >= 2 and not e.keywords:
+                vals = [self.num(a) for a in e.args]
+                out = vals[0]
+                fn = min if d == "min" else max
+                for v in vals[1:]:
+                    out = {fn(a, b) for a in out for b in v}
+                return out
+            raise _Opaque(short(e, 40))
+        if isinstance(e, ast.BinOp) and isinstance(e.op, (ast.Add, ast.Sub, ast.Mult)):
+            ls, rs = self.num(e.left), self.num(e.right)
+            if isinstance(e.op, ast.Add):
+                return {a + b for a in ls for b in rs}
+            if isinstance(e.op, ast.Sub):
+                return {a - b for a in ls for b in rs}
+            return {a * b for a in ls for b in rs}
+        if isinstance(e, ast.UnaryOp) and isinstance(e.op, ast.USub):
+            return {-a for a in self.num(e.operand)}
+        if isinstance(e, ast.Name):
+            return self.num(self._defn(e))
+        if isinstance(e, ast.IfExp):
+            out = set()
+            for t in self.truth(e.test, default={True, False}):
+                out |= self.num(e.body if t else e.orelse)
+            return out
+        raise _Opaque(short(e, 40))
+
+    def truth(self, t: ast.expr, default: set[bool] | None = None) -> set[bool]:
+        try:
+            return self._truth(t)
+        except _Opaque:
+            if default is not None:
+                return set(default)
+            raise
+
+    def _truth(self, t: ast.expr) -> set[bool]:
+        if isinstance(t, ast.UnaryOp) and isinstance(t.op, ast.Not):
+            return {not b for b in self._truth(t.operand)}
+        if isinstance(t, ast.BoolOp):
+            vals = [self._truth(v) for v in t.values]
+            out = vals[0]
+            for v in vals[1:]:
+                out = {(a and b) if isinstance(t.op, ast.And) else (a or b) for a in out for b in v}
+            return out
+        if isinstance(t, ast.Compare) and len(t.ops) == 1:
+            op, r = t.ops[0], t.comparators[0]
+            if isinstance(op, (ast.In, ast.NotIn)) and isinstance(r, (ast.Tuple, ast.List, ast.Set)):
+                ls = self.num(t.left)
+                members = set()
+                for x in r.elts:
+                    members |= self.num(x)
+                res = {a in members for a in ls}
+                return res if isinstance(op, ast.In) else {not b for b in res}
+            ls, rs = self.num(t.left), self.num(r)
+            import operator as _op
+
+            fn = {ast.Eq: _op.eq, ast.NotEq: _op.ne, ast.Lt: _op.lt, ast.LtE: _op.le, ast.Gt: _op.gt, ast.GtE: _op.ge}.get(type(op))
+            if fn is None:
+                raise _Opaque("comparison")
+            return {fn(a, b) for a in ls for b in rs}
+        if isinstance(t, (ast.Name, ast.Subscript, ast.Call, ast.BinOp, ast.List, ast.Tuple)):
+            return {n != 0 for n in self.seq(t)}
+        raise _Opaque(short(t, 40))
+
+    # -- facts dominating the unpacking statement ------------------------------------
+    def facts(self) -> list[tuple[ast.expr, bool]]:
+        out = list(self.extra_facts)
+        if self.cfg is not None:
+            try:
+                out += self.cfg.guards(self.cfg.stmt_of(self.at))
+            except Exception:
+                pass
+        return out
+
+    def admissible(self) -> bool:
+        for test, pol in self.facts():
+            try:
+                r = self._truth(test)
+            except (_Opaque, _UnpackUnsupported):
+                continue
+            if r == {not pol}:
+                return False
+        return True
+
+
+def _sep_present(call: ast.Call, sep: ast.expr | None, model: _SeqLen) -> bool:
+    """``SEP in <receiver>`` is a fact wherever the split executes (separator constant, same receiver text,
+    receiver not re-bound between the test and the split)."""
+    if not isinstance(sep, ast.Constant) or not isinstance(sep.value, str):
+        return False
+    recv = call.func.value  # type: ignore[union-attr]
+    rtext = unparse(recv)
+    from .flow import facts as _atomic
+
+    facts = list(model.extra_facts)
+    if model.cfg is not None:
+        try:
+            facts += model.cfg.guards(model.cfg.stmt_of(call))
+        except Exception:
+            pass
+    # tests of the enclosing expression: `x.split(s, 1) if s in x else ...`, `[p.split(s, 1) for p in ps if s in p]`
+    node: ast.AST = call
+    for a in ancestors(call):
+        if isinstance(a, (ast.stmt, ast.Lambda)):
+            break
+        if isinstance(a, ast.IfExp) and node is not a.test:
+            facts += _atomic(a.test, node is a.body)
+        if isinstance(a, (ast.ListComp, ast.GeneratorExp, ast.SetComp)) and node is a.elt:
+            for g in a.generators:
+                for t in g.ifs:
+                    facts += _atomic(t, True)
+        node = a
+    for test, pol in facts:
+        if not (isinstance(test, ast.Compare) and len(test.ops) == 1 and isinstance(test.left, ast.Constant) and test.left.value == sep.value):
+            continue
+        if unparse(test.comparators[0]) != rtext:
+            continue
+        if not ((isinstance(test.ops[0], ast.In) and pol) or (isinstance(test.ops[0], ast.NotIn) and not pol)):
+            continue
+        root = recv
+        while isinstance(root, (ast.Attribute, ast.Subscript, ast.Call)):
+            root = root.func if isinstance(root, ast.Call) else root.value
+        rebound = False
+        if isinstance(root, ast.Name):
+            for n in model.fi.local_nodes():
+                if isinstance(n, ast.Name) and n.id == root.id and isinstance(n.ctx, ast.Store):
+                    if getattr(test, "lineno", 0) < n.lineno <= call.lineno:
+                        rebound = True
+        if not rebound:
+            return True
+    return False
+
+
+def judge_unpack(fi: FunctionInfo, at: ast.stmt, target: ast.expr, rhs: ast.expr, extra_facts=()) -> tuple[str, str] | None:
+    """('raise', witness) | ('ok', reason) | ('unsupported', why) | None (no split-derived sequence: not judged)."""
+    elts = target.elts  # type: ignore[attr-defined]
+    starred = sum(isinstance(x, ast.Starred) for x in elts)
+    fixed = len(elts) - starred
+    model = _SeqLen(fi, at, list(extra_facts))
+
+    def fits(n: int) -> bool:
+        return n >= fixed if starred else n == fixed
+
+    try:
+        for _round in range(4):
+            known = set(model.bases)
+            model.env = {}
+            model.seq(rhs)  # discovery with the minimal lengths
+            if not model.bases:
+                return None
+            span = sum(model.consts) + fixed + 3
+            ids = sorted(model.bases)
+            doms = []
+            total = 1
+            for i in ids:
+                _, lo, hi = model.bases[i]
+                top = lo + span if hi is None else min(hi, lo + span)
+                doms.append(range(lo, top + 1))
+                total *= len(doms[-1])
+            if total > 20000:
+                return ("unsupported", "too many independent split results in one unpacked expression")
+            bad = None
+            n_adm = 0
+            import itertools
+
+            for combo in itertools.product(*doms):
+                model.env = dict(zip(ids, combo))
+                if not model.admissible():
+                    continue
+                n_adm += 1
+                lens = model.seq(rhs)
+                wrong = sorted(n for n in lens if not fits(n))
+                if wrong and bad is None:
+                    bad = (combo, wrong[0])
+            if set(model.bases) != known and _round < 3:
+                continue  # a branch revealed another split: enumerate again
+            break
+    except _Opaque:
+        return None
+    except _UnpackUnsupported as exc:
+        return ("unsupported", str(exc)) if model.bases else None
+    want = f"{'at least ' if starred else ''}{fixed}"
+    if bad is not None:
+        combo, got = bad
+        parts = ", ".join(f"`{short(model.bases[i][0], 40)}` yields {n} field(s)" for i, n in zip(ids, combo))
+        return ("raise", f"{got} value(s) for {want} target(s) when {parts}")
+    if n_adm == 0:
+        return ("ok", "the unpacking is unreachable for every split length (dominating tests exclude them all)")
+    return ("ok", f"the length is {want} for every admissible split length (maxsplit / separator test / len() guard / slice+padding)")
+
+
+def _iterated_elements(it: ast.expr) -> list[tuple[ast.expr, list]]:
+    """Element expressions of an iterable written in place (with the comprehension filters that hold for them)."""
+    if isinstance(it, (ast.ListComp, ast.GeneratorExp)) and len(it.generators) == 1:
+        from .flow import facts as _atomic
+
+        return [(it.elt, [f for t in it.generators[0].ifs for f in _atomic(t, True)])]
+    if isinstance(it, (ast.List, ast.Tuple)):
+        return [(x, []) for x in it.elts if not isinstance(x, ast.Starred)]
+    return []
 
 
 def _str_or_none_typed(e: ast.expr, fi: FunctionInfo) -> bool:
@@ -402,6 +861,9 @@ class EscapeAnalysis:
         self._renderer_classes = None
         self._computed = False
         self.token_line_unguarded: list = []
+        self._unpack_verdicts: dict = {}
+        self.unpack_witness: dict[tuple[str, str], str] = {}  # (fq, text) -> example lengths that raise
+        self.unsupported: list[tuple[str, str, str, str]] = []  # (fq, text, site, why): construct outside the modelled subset
 
     # -- renderer concretisation -------------------------------------------
     def renderer_hierarchy(self):
@@ -549,18 +1011,7 @@ class EscapeAnalysis:
                 self._assume(fi, call, "jinja env.parse of the very string from_string() compiled earlier on this path")
             else:
                 add([B + "Exception"], "jinja2 template compilation/rendering")
-        # tuple-unpack of split
-        if (
-            attr in ("split", "rsplit")
-            and isinstance(st, ast.Assign)
-            and st.value is call
-            and len(st.targets) == 1
-            and isinstance(st.targets[0], ast.Tuple)
-        ):
-            if _split_unpack_guard(st, call):
-                self._discharge(fi, call, "tuple-unpack of split(): separator presence is tested / starred target")
-            else:
-                add([B + "ValueError"], "tuple-unpack of str.split()")
+        # (tuple-unpack of split-derived sequences: statement-level entry, see unpack_raises)
         # foreign callables
         for t in targets:
             if isinstance(t, Special) and t.kind == FOREIGN:
@@ -830,6 +1281,9 @@ class EscapeAnalysis:
             return out
         if isinstance(st, ast.For):
             out |= self.expr_raises(st.iter, fi)
+            if isinstance(st.target, (ast.Tuple, ast.List)):
+                for elt, facts in _iterated_elements(st.iter):
+                    out |= self.unpack_raises(st, st.target, elt, fi, facts)
             out |= self.block(st.body, fi, reraise) | self.block(st.orelse, fi, reraise)
             return out
         if isinstance(st, ast.Match):
@@ -837,10 +1291,41 @@ class EscapeAnalysis:
             for c in st.cases:
                 out |= self.block(c.body, fi, reraise)
             return out
+        if isinstance(st, ast.Assign) and len(st.targets) == 1 and isinstance(st.targets[0], (ast.Tuple, ast.List)):
+            out |= self.unpack_raises(st, st.targets[0], st.value, fi)
         for child in ast.iter_child_nodes(st):
             if isinstance(child, ast.expr):
                 out |= self.expr_raises(child, fi)
         return out
+
+    def unpack_raises(self, st: ast.stmt, target: ast.expr, rhs: ast.expr, fi: FunctionInfo, facts=()) -> set[Esc]:
+        """Catalogue entry "tuple-unpack of a sequence whose length is decided by the text" (ValueError)."""
+        key = (id(st), id(rhs))
+        if key not in self._unpack_verdicts:
+            self._unpack_verdicts[key] = judge_unpack(fi, st, target, rhs, facts)
+        verdict = self._unpack_verdicts[key]
+        if verdict is None:
+            return set()
+        kind, msg = verdict
+        site = fi.module.site(rhs)
+        if kind == "ok":
+            self._discharge(fi, rhs, f"tuple-unpack of a split-derived sequence: {msg}")
+            return set()
+        if kind == "unsupported":
+            t = (fi.fq, short(rhs), site, msg)
+            if t not in self.unsupported:
+                self.unsupported.append(t)
+            return set()
+        exc = B + "ValueError"
+        text = short(rhs)
+        prev = self.catalogue_sites.get((fi.fq, text))
+        self.catalogue_sites[(fi.fq, text)] = (site, sorted(set(prev[1] if prev else []) | {exc}))
+        self.unpack_witness[(fi.fq, text)] = msg
+        o = self.origin(fi, rhs, exc)
+        if o is None:
+            return set()
+        self.via.setdefault((fi.fq, o.ident()), (site, None))
+        return {o}
 
     def expr_raises(self, e: ast.AST, fi: FunctionInfo) -> set[Esc]:
         out: set[Esc] = set()
